@@ -47,9 +47,21 @@ def setup(S):
         shim_xarray_mean(S)
 
 
-def make_stub_theory(S, coord='spherical', log=None):
+def make_stub_theory(S, coord='spherical', log=None, tagger=None, by_position=False):
     """ScatteringTheory whose kernel returns an arbitrary (symbolic) field per
-    (sphere tag, detector point index)."""
+    (sphere tag, detector point).  Points are identified by their index in the
+    call, or (by_position=True) by their detector (x, y) coordinates, recorded
+    from the schema handed to ImageFormation._transform_to_desired_coordinates."""
+    last = {}
+    if by_position:
+        orig = imf.ImageFormation._transform_to_desired_coordinates
+
+        def wrapped(self, detector, origin, wavevec=1):
+            f = meta.flat(detector)
+            last['xy'] = [(int(round(float(x) * 1e4)), int(round(float(y) * 1e4)))
+                          for x, y in zip(f.x.values, f.y.values)]
+            return orig(self, detector, origin, wavevec=wavevec)
+        S.patch(imf.ImageFormation, '_transform_to_desired_coordinates', wrapped, both=True)
 
     class StubTheory(ScatteringTheory):
         desired_coordinate_system = coord
@@ -62,13 +74,14 @@ def make_stub_theory(S, coord='spherical', log=None):
 
         def raw_fields(self, pos, scatterer, medium_wavevec, medium_index, illum_polarization):
             n = pos.shape[1]
-            tag = 'E%d_' % int(round(float(np.max(scatterer.r)) * 100))
+            tag = tagger(scatterer) if tagger else 'E%d_' % int(round(float(np.max(scatterer.r)) * 100))
             if log is not None:
                 log.append((tag, pos, scatterer, medium_wavevec, medium_index, illum_polarization))
             out = np.empty((3, n), dtype=object if S.sym else complex)
             for i in range(n):
+                pt = ('%d_%d' % last['xy'][i]) if by_position else str(i)
                 for c in range(3):
-                    out[c, i] = S.cplx(f'{tag}{i}{"xyz"[c]}')
+                    out[c, i] = S.cplx(f'{tag}{pt}{"xyz"[c]}')
             return out
     return StubTheory()
 
